@@ -79,7 +79,7 @@ COMPOSITE = {"Animal": [("owner", "Person")], "Dog": [("owner", "Person"), ("fri
 ROOTS = [("animal", "Animal"), ("animals", "Animal"), ("dog", "Dog"), ("cat", "Cat"), ("pet", "Pet"),
          ("person", "Person"), ("people", "Person")]
 IMPLS = {"Animal": ["Dog", "Cat"], "Pet": ["Dog", "Cat"]}
-SHAPES = ["chain", "diamond", "shared", "iface", "union", "inline", "unused", "mixed"]
+SHAPES = ["chain", "diamond", "shared", "iface", "union", "inline", "unused", "mixed", "conditional"]
 
 MIXINS_PY = "".join(f"class Mixin{c}:\n    def mixin_{c.lower()}(self):\n        return '{c}'\n\n\n" for c in "ABC")
 
@@ -90,6 +90,18 @@ class FragGen:
         self.seed = seed
         self.frags: dict[str, tuple[str, str, str]] = {}  # name -> (type, directive text, body)
         self.n_mixin_dirs = 0
+        self.n_conds = 0
+        self.in_fragment = False
+        self.uses_var = False
+
+    def cond(self, in_fragment=False) -> str:
+        """@skip/@include: a literal inside fragment definitions (they declare no variables), the operation's
+        Boolean variable $c elsewhere (so responses with the container skipped are produced, too)."""
+        self.n_conds += 1
+        if in_fragment or self.r.random() < 0.3:
+            return " " + self.r.choice(["@include(if: true)", "@skip(if: false)", "@include(if: false)", "@skip(if: true)"])
+        self.uses_var = True
+        return " " + self.r.choice(["@include(if: $c)", "@skip(if: $c)"])
 
     def mixin(self, p=0.15) -> str:
         if self.r.random() < p:
@@ -130,10 +142,10 @@ class FragGen:
         cands = self.compatible_spreads(t, pool)
         if cands and r.random() < p_spread:
             for n in r.sample(cands, r.randint(1, min(2, len(cands)))):
-                parts.append("..." + n)
+                parts.append("..." + n + (self.cond(self.in_fragment) if r.random() < 0.15 else ""))
         if t in IMPLS and r.random() < 0.5:
             o = r.choice(IMPLS[t])
-            parts.append(f"... on {o} {{ " + " ".join(self.leaves(o, 1, 2)) + " }")
+            parts.append(f"... on {o}{self.cond(self.in_fragment) if r.random() < 0.15 else ''} {{ " + " ".join(self.leaves(o, 1, 2)) + " }")
         if depth > 0:
             for fname, ft in COMPOSITE[t]:
                 if r.random() < 0.4:
@@ -152,7 +164,8 @@ class FragGen:
         root_of = {t: [f for f, ft in ROOTS if ft == t] for t in ["Animal", "Dog", "Cat", "Pet", "Person"]}
 
         def op(name, root_field, parts):
-            ops.append(f"query {name} {{ {root_field} {{ " + " ".join(parts) + " } }")
+            v = "($c: Boolean!)" if any("$c" in x for x in parts) else ""
+            ops.append(f"query {name}{v} {{ {root_field} {{ " + " ".join(parts) + " } }")
 
         if shape == "chain":
             k = r.randint(3, 5)
@@ -216,12 +229,27 @@ class FragGen:
                 ops.pop()
                 op("UsesNone", r.choice(root_of[T]), self.leaves(T, 1, 2))
             _ = u1
+        elif shape == "conditional":
+            # spreads under @skip/@include: on the spread itself, on an enclosing inline fragment, inside a
+            # fragment that is itself spread conditionally (nested), next to unconditional spreads of the same
+            base = self.new_fragment("Dog", self.leaves("Dog", 1, 2), self.mixin(0.2))
+            mid = self.new_fragment("Dog", self.leaves("Dog", 1, 1) + ["..." + base + (self.cond(True) if r.random() < 0.5 else "")])
+            fa = self.new_fragment("Animal", self.leaves("Animal", 1, 2))
+            op("CondSpread", "dog", ["id", "..." + base + self.cond()])
+            op("CondInline", "dog", [f"... on Dog{self.cond()} {{ ...{mid} }}"] + (["..." + base] if r.random() < 0.5 else []))
+            op("CondNested", "dog", ["..." + mid + self.cond(), "..." + mid] if r.random() < 0.5 else ["..." + mid + self.cond()])
+            op("CondIface", r.choice(["animal", "animals"]),
+               ["..." + fa + self.cond(), f"... on Dog{self.cond()} {{ ...{base} bark }}"] + (["..." + fa] if r.random() < 0.4 else []))
+            if r.random() < 0.5:
+                op("CondUnion", "pet", ["__typename", f"... on Dog{self.cond()} {{ ...{base} }}", "..." + mid + self.cond()])
         else:
             k = r.randint(2, 5)
             types = [r.choice(["Animal", "Dog", "Cat", "Person", "Pet", "Address"]) for _ in range(k)]
             names = []
             for t in types:  # later fragments may spread earlier ones only: acyclic by construction
+                self.in_fragment = True
                 body = self.selection(t, 1, names, 0.7)
+                self.in_fragment = False
                 names.append(self.new_fragment(t, body, self.mixin(0.2) if t != "Pet" else ""))
             for i in range(r.randint(1, 3)):
                 rf, rt = r.choice(ROOTS)
@@ -259,7 +287,7 @@ def make(seed: int, tries: int = 40) -> Scenario:
         return Scenario(seed=seed, sdl=SDL, queries="\n\n".join(defs) + "\n", config=cfg, features=("frags",),
                         files={"mixins_impl.py": MIXINS_PY},
                         notes={"shape": shape, "n_frags": len(g.frags), "n_defs": len(defs), "defs": defs,
-                               "mixin_directives": g.n_mixin_dirs, "subseed": k})
+                               "mixin_directives": g.n_mixin_dirs, "conditions": g.n_conds, "subseed": k})
     raise RuntimeError(f"no valid fragment scenario for seed {seed}: {last}")
 
 
